@@ -241,7 +241,29 @@ func (g *AnyGen) newNamed(depth int) *spec.T {
 	self := spec.Named("p", name)
 	d := &spec.TypeDecl{Name: name}
 	g.P.Types = append(g.P.Types, d)
-	switch g.draw(8, "named-shape") {
+	switch g.draw(10, "named-shape") {
+	case 8:
+		// self-referential named array types
+		g.label("recursive")
+		g.label("recursive-array")
+		switch g.draw(3, "array-self-via") {
+		case 0:
+			d.U = spec.Array(2, spec.Ptr(self))
+		case 1:
+			d.U = spec.Array(3, spec.Slice(self))
+		default:
+			d.U = spec.Array(1, spec.Map(spec.Basic("string"), self))
+		}
+	case 9:
+		// mutually recursive named arrays / slices
+		g.label("mutual")
+		g.label("recursive-array")
+		g.n++
+		other := fmt.Sprintf("N%d", g.n)
+		od := &spec.TypeDecl{Name: other, U: spec.Array(1, spec.Map(spec.Basic("string"), self))}
+		g.P.Types = append(g.P.Types, od)
+		d.U = spec.Array(2, spec.Ptr(spec.Named("p", other)))
+		g.named = append(g.named, spec.Named("p", other))
 	case 0, 1, 2:
 		d.U = g.structLit(depth, self)
 	case 3:
